@@ -173,6 +173,19 @@ def compare(got, spec, axioms=(), pc=None, nan=True):
         if abs(a - b) > Fraction(1, 1000) * max(1, abs(a), abs(b)):
             return R.REFUTED, 'differs from the definition at %s: got %s, definition %s' % (X.show_env(env), a, b)
     if pg is not None:
+        # normal forms over lanes, inverses, square roots and sines / cosines of independent angles: an exact rational point (angles as rational points of the
+        # unit circle) at which they take different values refutes the identity
+        try:
+            d = P.reduce_inv(pg - ps)
+            env = P.find_witness('gt', P.Poly.const(1), [d], tries=200) if (not d.is_zero() and P.transparent(d)) else None
+            if env is not None:
+                for a_ in P.lane_atoms([pg, ps]):
+                    env.setdefault(a_, Fraction(1))
+                va, vb = P.eval_poly(pg, env), P.eval_poly(ps, env)
+                if va != vb:
+                    return R.REFUTED, 'differs from the definition at %s: got %s, definition %s' % (P.show_env(env), va, vb)
+        except (P.CantEval, P.NonFinite, P.TooBig, ZeroDivisionError):
+            pass
         return R.UNDECIDED, 'normal forms differ in opaque atoms: got %s ; definition %s' % (P.show_poly(pg, limit=5), P.show_poly(ps, limit=5))
     return R.UNDECIDED, 'no normal form'
 
